@@ -74,6 +74,80 @@ fn canon_into(o: &PdfObject, out: &mut String) {
     }
 }
 
+/// Canonical text form of a reference-model object, in the same format as `canon_lib`
+/// (`stream_data` = decoded data to print for streams).
+pub fn canon_ref(o: &crate::refpdf::Obj, decoded: Option<&[u8]>) -> String {
+    use crate::refpdf::Obj;
+    fn dict_into(d: &crate::refpdf::Dict, out: &mut String) {
+        let mut keys: Vec<&(Vec<u8>, Obj)> = d.0.iter().collect();
+        keys.sort_by(|a, b| String::from_utf8_lossy(&a.0).cmp(&String::from_utf8_lossy(&b.0)));
+        out.push_str("<<");
+        for (k, v) in keys {
+            out.push('/');
+            out.push_str(&String::from_utf8_lossy(k));
+            out.push(' ');
+            into(v, None, out);
+            out.push(' ');
+        }
+        out.push_str(">>");
+    }
+    fn into(o: &Obj, decoded: Option<&[u8]>, out: &mut String) {
+        match o {
+            Obj::Null => out.push_str("null"),
+            Obj::Bool(b) => out.push_str(if *b { "true" } else { "false" }),
+            Obj::Int(i) => out.push_str(&i.to_string()),
+            Obj::Real(r) => out.push_str(&format!("{:.4}", r)),
+            Obj::Str(s) => {
+                out.push('(');
+                bytes_repr(s, out);
+                out.push(')');
+            }
+            Obj::Name(n) => {
+                out.push('/');
+                out.push_str(&String::from_utf8_lossy(n));
+            }
+            Obj::Arr(a) => {
+                out.push('[');
+                for x in a {
+                    into(x, None, out);
+                    out.push(' ');
+                }
+                out.push(']');
+            }
+            Obj::Dict(d) => dict_into(d, out),
+            Obj::Stream(s) => {
+                dict_into(&s.dict, out);
+                out.push_str("stream[");
+                bytes_repr(decoded.unwrap_or(&s.data), out);
+                out.push(']');
+            }
+            Obj::Ref(n, g) => out.push_str(&format!("{n} {g} R")),
+        }
+    }
+    let mut s = String::new();
+    into(o, decoded, &mut s);
+    s
+}
+
+/// Remove every `/Length <int> ` entry from a canonical string (stored length ≠ decoded length).
+pub fn strip_length(v: &str) -> String {
+    let mut v = v.to_string();
+    let mut from = 0;
+    while let Some(rel) = v[from..].find("/Length ") {
+        let a = from + rel;
+        let rest = &v[a + 8..];
+        let n = rest.bytes().take_while(|c| c.is_ascii_digit()).count();
+        if n == 0 {
+            from = a + 8;
+            continue;
+        }
+        let end = a + 8 + n + if rest[n..].starts_with(' ') { 1 } else { 0 };
+        v.replace_range(a..end, "");
+        from = a;
+    }
+    v
+}
+
 pub fn presets() -> Vec<(&'static str, ParseOptions)> {
     vec![("strict", ParseOptions::strict()), ("default", ParseOptions::default()), ("tolerant", ParseOptions::tolerant()), ("skip_errors", ParseOptions::skip_errors())]
 }
